@@ -35,6 +35,7 @@ EXHAUSTIVE_NOTE = 'the depth-1 configuration table (api x override x transport x
 ASSUMPTIONS = [
     'a UTF-8 BOM may be reported as utf-8 or utf-8-sig',
     'encoding names are compared after codecs.lookup() normalisation',
+    'a top-level byte document with a UTF-16 BOM and no @charset rule given to parseString/parseFile is decoded by the BOM but reports UTF-8 (it has no @charset rule) and passes UTF-8 on to imports without information of their own; imported sheets and parseUrl record the BOM encoding as @charset rule',
     'comments are excluded from the lossless comparison when they hold characters the target encoding cannot represent (escapes are not interpreted inside comments; recorded as KF-C08 if observed)',
 ]
 MIN_EVENTS = {
@@ -58,7 +59,23 @@ def norm(enc):
 
 
 # ------------------------------------------------------------------------------------------------------------ precedence
-def level_content(i, cfg, last):
+WIDE = {'bom16': 'utf-16', 'bom32': 'utf-32'}
+
+
+def wire_wide(cfg, parent_enc, override=None):
+    """the wide (UTF-16/32) encoding the bytes of this level are written in, or None: declared by its own BOM, or - without any
+    information of its own - inherited from a referring sheet that is in such an encoding"""
+    http, decl, delivery, answer = cfg
+    if delivery != 'bytes':
+        return None
+    if decl in WIDE:
+        return WIDE[decl]
+    if not override and not http and not decl and norm(parent_enc) in ('utf-16', 'utf-32'):
+        return norm(parent_enc) + '-le'
+    return None
+
+
+def level_content(i, cfg, last, parent_enc=None, override=None):
     """bytes or str served for level i (1-based); cfg = (http, decl, delivery, answer)"""
     http, decl, delivery, answer = cfg
     head = ''
@@ -68,6 +85,10 @@ def level_content(i, cfg, last):
     if delivery == 'text':
         text = body + 'p%d{content:"T%däЖ"}' % (i, i)
         return ('﻿' + text) if decl == 'bom' else text
+    wide = wire_wide(cfg, parent_enc, override)
+    if wide:
+        # (the utf-16/utf-32 codecs write the BOM themselves, the -le ones do not)
+        return (body + 'p%d{content:"W%däЖ"}' % (i, i)).encode(wide)
     raw = body.encode('ascii') + b'p%d{content:"' % i + PROBE + b'"}'
     return (codecs.BOM_UTF8 + raw) if decl == 'bom' else raw
 
@@ -80,6 +101,8 @@ def model_encoding(override, cfg, parent_enc):
         return http
     if decl == 'bom':
         return 'utf-8'
+    if decl in WIDE:
+        return WIDE[decl]
     if decl and decl.startswith('charset:'):
         return decl[8:]
     if parent_enc:
@@ -87,9 +110,11 @@ def model_encoding(override, cfg, parent_enc):
     return 'utf-8'
 
 
-def expected_probe(i, cfg, enc):
+def expected_probe(i, cfg, enc, parent_enc=None, override=None):
     if cfg[2] == 'text':
         return 'T%däЖ' % i
+    if wire_wide(cfg, parent_enc, override):
+        return 'W%däЖ' % i
     return PROBE.decode(enc)
 
 
@@ -99,6 +124,14 @@ def run_chain(ctx, c, api, override, top, levels, case):
     for i, cfg in enumerate(levels, 1):
         vfs['http://h/L%d.css' % i] = cfg
     asked = []
+    # the encoding of the referring sheet, by the model (decides how a level without information of its own is written)
+    parents = {}
+    p_enc = model_encoding(override, (top[2] if api == 'parseUrl' else None, top[0], top[1], 'data'), None)
+    if top[0] in WIDE and api != 'parseUrl' and not override:
+        p_enc = 'utf-8'  # see below: what the top sheet reports
+    for i, cfg in enumerate(levels, 1):
+        parents[i] = p_enc
+        p_enc = model_encoding(override, cfg, p_enc)
 
     def fetcher(url):
         asked.append(url)
@@ -113,7 +146,7 @@ def run_chain(ctx, c, api, override, top, levels, case):
         if cfg[3] == 'nonepair':
             return (None, None)
         i = int(url.rsplit('L', 1)[1].split('.')[0])
-        return cfg[0], level_content(i, cfg, last=(i == len(levels)))
+        return cfg[0], level_content(i, cfg, last=(i == len(levels)), parent_enc=parents[i], override=override)
 
     core.canonical_state(c, raising=False)
     parser = c.CSSParser(fetcher=fetcher)
@@ -149,6 +182,10 @@ def run_chain(ctx, c, api, override, top, levels, case):
     if top_cfg[2] == 'text' and api != 'parseFile' and not override and not top_cfg[0]:
         # text has no byte encoding to detect; its @charset rule (if any) is what the sheet reports
         enc0 = top[0][8:] if top[0] and top[0].startswith('charset:') else 'utf-8'
+    if top[0] in WIDE and api != 'parseUrl' and not override:
+        # bytes handed to parseString/parseFile are decoded by their BOM before the sheet exists; with no @charset rule the sheet
+        # reports UTF-8 ("reported encoding = @charset rule, UTF-8 if there is none"), and that is what it passes on as referring sheet
+        enc0 = 'utf-8'
     got_probe0 = probe_of(sheet, 0)
     want_probe0 = expected_probe(0, top_cfg if api != 'parseFile' else (None, top_cfg[1], 'bytes' if isinstance(content, bytes) else 'textfile', 'data'), enc0)
     if api == 'parseFile' and not isinstance(content, bytes):
@@ -175,6 +212,8 @@ def run_chain(ctx, c, api, override, top, levels, case):
                 problems.append('level %d was not delivered but level %d was fetched' % (i, i + 1))
             break
         ctx.count('levels.checked')
+        if wire_wide(cfg, parent_enc, override):
+            ctx.count('levels.wide.' + ('own-bom' if cfg[1] in WIDE else 'inherited'))
         enc = model_encoding(override, cfg, parent_enc)
         if url not in asked:
             problems.append('level %d was never fetched' % i)
@@ -185,7 +224,7 @@ def run_chain(ctx, c, api, override, top, levels, case):
         if norm(child.encoding) != norm(enc):
             problems.append('level %d reports %r, ladder says %r' % (i, child.encoding, enc))
         got = probe_of(child, i)
-        want = expected_probe(i, cfg, enc)
+        want = expected_probe(i, cfg, enc, parent_enc, override)
         if got != want:
             problems.append('level %d decoded %r, ladder (%s) gives %r' % (i, got, enc, want))
         # what the sheet reports is its @charset rule
@@ -210,7 +249,7 @@ def probe_of(sheet, i):
 
 
 HTTPS = [None, 'koi8-r', 'cp437']
-DECLS = [None, 'charset:iso-8859-5', 'charset:mac-roman', 'bom']
+DECLS = [None, 'charset:iso-8859-5', 'charset:mac-roman', 'bom', 'bom16', 'bom32']
 ANSWERS = ['data', 'data', 'data', 'none', 'nonepair']
 
 
@@ -218,7 +257,7 @@ def sane(cfg, override=None):
     """a BOM is generated only where the ladder ends at UTF-8 for it (a UTF-8 BOM decoded as cp437 is just garbage in front of
     the first rule) and only for byte delivery"""
     http, decl, delivery, answer = cfg
-    if decl == 'bom' and (delivery == 'text' or http or override):
+    if decl in ('bom', 'bom16', 'bom32') and (delivery == 'text' or http or override):
         return False
     return True
 
@@ -233,7 +272,7 @@ def level_cfgs():
 
 def top_cfgs():
     # (decl, delivery, http-of-top for parseUrl)
-    for decl in (None, 'charset:iso-8859-7', 'bom'):
+    for decl in (None, 'charset:iso-8859-7', 'bom', 'bom16'):
         for delivery in ('bytes', 'text'):
             for http in (None, 'cp1251'):
                 yield (decl, delivery, http)
@@ -389,7 +428,7 @@ def run_worker(ctx):
                     ctx.seen(['P', api, override, top, cfg])
     # ---- deeper chains, sampled
     tops = list(top_cfgs())
-    n = 30000 if quick else 400000
+    n = 42000 if quick else 560000
     for i in range(n):
         if not ctx.mine(i):
             continue
